@@ -13,6 +13,7 @@ def main(tier):
     models.envelope(P, rep, extracted, syms)
     rep.attempt(models.gaussian_top_side, P, rep)             # mass-conserving slab: the side above the coldest surface
     rep.attempt(models.conductive_bottom_side, P, rep)        # ... and the side below it, for both reference models
+    rep.attempt(models.analytic_profile_guard, P, rep)        # ... used only when its cold end member is below its warm one
     rep.attempt(models.parameter_single_source, P, rep)      # one value per physical parameter inside a model's formulas
     dep.surface_pairing(P, rep)  # the model's own top and bottom are the local depths: features hand over, and models use, the local bounds
     models.formulas(P, rep)      # linear models: T_top at the clipped top, T_bottom at the clipped bottom follow from the verified form
